@@ -40,11 +40,21 @@ KNOWN = {
 }
 
 
-def repeat_all(mods_list, n, procs):
-    """-> per program: list of answer lines, one per process"""
+def repeat_all(mods_list, n, procs, workers=8):
+    """-> per program: list of answer lines, one per process (the processes run side by side: a VM run
+    mostly sleeps in its wait loop)"""
+    from concurrent.futures import ThreadPoolExecutor
     lines = [mod_line("repeat", m, f"(n {n})") for m in mods_list]
-    runs = [core.go_lines("repeat", lines, timeout=900) for _ in range(procs)]
-    return [[r[i] for r in runs] for i in range(len(lines))]
+    size = max(1, (len(lines) + 3) // 4)
+    chunks = [(i, lines[i:i + size]) for i in range(0, len(lines), size)]
+    jobs = [(p, i, ch) for p in range(procs) for i, ch in chunks]
+    with ThreadPoolExecutor(max_workers=workers) as ex:
+        outs = list(ex.map(lambda j: core.go_lines("repeat", j[2], timeout=900), jobs))
+    res = [[None] * procs for _ in lines]
+    for (p, i, ch), out in zip(jobs, outs):
+        for k, o in enumerate(out):
+            res[i + k][p] = o
+    return res
 
 
 def stable_part(line):
